@@ -66,11 +66,11 @@ func checkC13(c *Ctx) {
 	c.rule = "cases = request histories ending in / containing ReadModifyWriteRow requests: TLC-enumerated transitions of MC_BtRmw (with BFS history) and seeded random programs, executed on the real emulator on every engine, reply row and full read-back validated step by step by TLC against BtData.ReadModifyWrite; distinct = distinct history text; non-trivial = at least one request after table creation"
 	c.runBtFamily(btFamily{
 		Label: "C13", Module: "MC_BtRmw",
-		Quick:      map[string]string{"MaxRules": "2", "MaxCells": "2", "MaxRmw": "1"},
-		Thorough:   map[string]string{"MaxRules": "3", "MaxCells": "3", "MaxRmw": "2"},
-		DumpQuick:  map[string]string{"MaxRules": "2", "MaxCells": "2", "MaxRmw": "1"},
-		DumpThor:   map[string]string{"MaxRules": "2", "MaxCells": "2", "MaxRmw": "2"},
-		SampleQ:    "400", SampleT: "40", MaxReplayQ: 1200,
+		Quick:     map[string]string{"MaxRules": "2", "MaxCells": "2", "MaxRmw": "1"},
+		Thorough:  map[string]string{"MaxRules": "3", "MaxCells": "3", "MaxRmw": "2"},
+		DumpQuick: map[string]string{"MaxRules": "2", "MaxCells": "2", "MaxRmw": "1"},
+		DumpThor:  map[string]string{"MaxRules": "2", "MaxCells": "2", "MaxRmw": "2"},
+		SampleQ:   "400", SampleT: "40", MaxReplayQ: 1200,
 		Invariants: []string{"InvCanonical"}, Properties: []string{"FailedIsNoop", "RmwLaws"},
 		Gen: genRmwProgram, NRandQ: 150, NRandT: 3000,
 	})
